@@ -412,6 +412,15 @@ def initia_schema(root="/repo/packages/initia-proto"):
     sch["not_compiled"] = not_compiled
     sch["files"] = [f for f in files if f.endswith(".rs")]
     sch["type_urls"] = parse_type_urls(os.path.join(root, "src", "type_urls.rs"))
+    # registrations to probe in the compiled crate: the parsed ones plus the pinned registry (a registration
+    # rewritten as a macro is still compiled, and its constant is what `to_any` / `from_any` use)
+    pinned = os.path.join(os.path.dirname(os.path.dirname(os.path.abspath(__file__))), "baselines", "type_url_registry.json")
+    probe = {t["rust_path"]: t["url"] for t in sch["type_urls"]}
+    if os.path.exists(pinned):
+        for k in json.load(open(pinned))["rust_paths"]:
+            if k in sch["messages"] and sch["messages"][k].get("origin") is not None:
+                probe.setdefault(k, None)
+    sch["type_url_probe"] = [{"rust_path": k, "url": probe[k]} for k in sorted(probe)]
     for m in sch["messages"].values():
         m["compiled"] = m["origin"] not in not_compiled
     return sch
